@@ -1,4 +1,5 @@
 import ShootVerif.Drive.Loop
 import ShootVerif.Drive.Ctor
+import ShootVerif.Drive.Opt
 open ShootVerif.Drive
-def main : IO Unit := runDriver [("ctor", ctorCase)]
+def main : IO Unit := runDriver [("ctor", ctorCase), ("opt", optCase)]
